@@ -426,12 +426,12 @@ func c01R6(c *Ctx) {
 					fileV = x
 					// non-nil edge
 					start := b.Succs[1]
-					isClose := func(in ssa.Instruction) bool {
+					isCloseD := func(in ssa.Instruction, allowDefer bool) bool {
 						ci, ok := in.(ssa.CallInstruction)
 						if !ok {
 							return false
 						}
-						if _, isDefer := in.(*ssa.Defer); isDefer {
+						if _, isDefer := in.(*ssa.Defer); isDefer && !allowDefer {
 							return false
 						}
 						cc := ci.Common()
@@ -447,13 +447,14 @@ func c01R6(c *Ctx) {
 						}
 						return false
 					}
+					// to the next file: only a real (non-deferred) close counts; to a return: a deferred close counts too
 					hit, path := reachFrom(start, 0, func(in ssa.Instruction) bool {
-						if isReturn(in) {
-							return true
-						}
 						ci, ok := in.(ssa.CallInstruction)
 						return ok && idIs(side.names...)(calleeID(ci.Common()))
-					}, isClose)
+					}, func(in ssa.Instruction) bool { return isCloseD(in, false) })
+					if hit == nil {
+						hit, path = reachFrom(start, 0, isReturn, func(in ssa.Instruction) bool { return isCloseD(in, true) })
+					}
 					c.check(hit == nil, side.fn+"/file-closed-per-iteration", c.ipos(i), "every file is closed before the next file is started or the function returns",
 						"a file opened for one entry is still open when the next entry starts (or on return): open files grow with the number of files in a transfer", c.pathStr(path)...)
 				}
